@@ -474,6 +474,71 @@ fn cancel(args: &[String]) {
     println!("{{\"histories\":{n},\"cancelled_attempts\":{cancelled},\"cancelled_while_pending\":{cancelled_pending},\"panics_injected\":{panics_injected},\"panics_reached_caller\":{panics_seen},\"commit_futures_dropped\":{commits_dropped},\"queries_judged\":{judged},\"violations\":[{}]}}", viol.join(","));
 }
 
+/// C02: engine fanin <cfg> <k> <rounds> <threads>: k callers C_i = M + i of one callee M = I0 (+ a firewall
+/// variant) are computed concurrently from many tasks on a multi-thread runtime, then I0 changes and
+/// every caller must follow (a lost backward edge shows as a stale caller); executors of one key must
+/// never overlap; every round must finish.
+fn fanin(args: &[String]) {
+    let cfg = args[0].clone();
+    let k: u32 = args[1].parse().unwrap();
+    let rounds: u64 = args[2].parse().unwrap();
+    let threads: usize = args[3].parse().unwrap();
+    // round r has its own callee M_r = I0 + r (even r: normal, odd r: firewall F_r = (I0 + r) mod 1000)
+    // and k fresh callers C_{r,i} = callee + i, so that every round crosses the 32-caller threshold anew
+    let mut prog = Program::default();
+    let callee = |r: u64| if r % 2 == 0 { Node { kind: Kind::Normal, idx: (r * 10_000) as u32 } } else { Node { kind: Kind::Firewall, idx: r as u32 } };
+    let caller = |r: u64, i: u32| Node { kind: Kind::Normal, idx: (r * 10_000) as u32 + i };
+    for r in 0..rounds {
+        let body = Expr::Add(Box::new(Expr::Read(Node { kind: Kind::Input, idx: 0 })), Box::new(Expr::Const(r as i64)));
+        prog.exprs.insert(callee(r), if r % 2 == 0 { body } else { Expr::Mod(Box::new(body), 1000) });
+        for i in 1..=k { prog.exprs.insert(caller(r, i), Expr::Add(Box::new(Expr::Read(callee(r))), Box::new(Expr::Const(i as i64)))); }
+    }
+    let w = World::new(prog, 0);
+    w.exec_yields.store(1, Ordering::Relaxed);
+    let runtime = rt(threads);
+    let (stale, hung, rounds_done) = runtime.block_on(async {
+        let disk = Shared::new();
+        enum E { M(Arc<qbice::Engine<MemCfg>>), D(Arc<qbice::Engine<DbCfg>>) }
+        let engine = if let Some(cap) = cfg.strip_prefix("db:") { E::D(open_db(&w, &disk, cap.parse().unwrap(), 2).await) } else { E::M(open_mem(&w).await) };
+        let (mut stale, mut hung, mut done) = (Vec::new(), 0u64, 0u64);
+        let mut x = 1i64;
+        for round in 0..rounds {
+            for phase in 0..2 {
+                x += 7;
+                match &engine {
+                    E::M(e) => { let mut s = e.input_session().await; s.set_input(Var(0), x).await; s.commit().await; }
+                    E::D(e) => { let mut s = e.input_session().await; s.set_input(Var(0), x).await; s.commit().await; }
+                }
+                let mut hs = Vec::new();
+                for i in 1..=k {
+                    let node = caller(round, i);
+                    let h = match &engine {
+                        E::M(e) => { let e = e.clone(); tokio::spawn(async move { let t = e.tracked().await; query_node(&t, node).await }) }
+                        E::D(e) => { let e = e.clone(); tokio::spawn(async move { let t = e.tracked().await; query_node(&t, node).await }) }
+                    };
+                    hs.push((i, h));
+                }
+                for (i, h) in hs {
+                    match tokio::time::timeout(Duration::from_secs(30), h).await {
+                        Ok(Ok(v)) => {
+                            let base = if round % 2 == 0 { x + round as i64 } else { (x + round as i64).rem_euclid(1000) };
+                            if v != base + i as i64 && stale.len() < 5 { stale.push(format!("round {round} phase {phase}: caller {} = {v}, expected {}", caller(round, i).short(), base + i as i64)); }
+                        }
+                        _ => { hung += 1; }
+                    }
+                }
+                if hung > 0 { break; }
+            }
+            done += 1;
+            if hung > 0 { break; }
+        }
+        (stale, hung, done)
+    });
+    println!("{{\"cfg\":{:?},\"fan_in\":{k},\"rounds\":{rounds_done},\"threads\":{threads},\"stale_callers\":{:?},\"requests_not_completed\":{hung},\"executors_of_one_key_overlapping\":{},\"executions\":{}}}",
+        cfg, stale, w.concurrent_same_key.load(Ordering::SeqCst), w.exec_count.load(Ordering::SeqCst));
+    std::process::exit(0);
+}
+
 fn main() {
     let args: Vec<String> = std::env::args().collect();
     if std::env::var("QV_PANIC_TRACE").is_err() { std::panic::set_hook(Box::new(|_| {})); }
@@ -488,6 +553,7 @@ fn main() {
         "f5" => f5(),
         "c04" => c04(&args[2..]),
         "crash" => crash(&args[2..]),
+        "fanin" => fanin(&args[2..]),
         "cancel" => cancel(&args[2..]),
         m => panic!("unknown mode {m}"),
     }
